@@ -68,6 +68,7 @@ pub fn chain_view(bc: &Blockchain, ids: &HashMapIds, world: &World, max_h: u64) 
     json!({
         "tip": tip,
         "tiph": tip_height,
+        "top": bc.last_block_id,
         "lc": lc,
         "stored": stored.into_iter().collect::<Vec<_>>(),
         "inlc": inlc.into_iter().collect::<Vec<_>>(),
